@@ -4,7 +4,7 @@ from . import _histcheck
 
 PROPERTY = 'C06'
 LEVEL = 'exploration'
-RULE = ('per element-content type: core = every sequence of <=3 additions (<=2 when the alphabet exceeds 12; thorough <=3, <=4 for alphabets <=8) and every <=1 addition (thorough <=2) followed by one removal / replacement / forward addition / shortcut / serialisation; long = a valid word of ~300 children followed by replacements / removals at positions >= 257 with serialisations; leaf classes = a child offered to every class without content model is refused or fully tracked; halo = seeded hostile histories (mixed, failure-biased, removal-heavy, long runs, shortcut-heavy, guided by valid words). A case is one history; the invariants (both views are permutations of each other and of the shadow model, parents, exactly-once in output) are evaluated after every operation. non-trivial = at least one operation; distinct = distinct operation string')
+RULE = ('per element-content type: core = every sequence of <=3 additions (<=2 when the alphabet exceeds 12; thorough <=3, <=4 for alphabets <=8) and every <=1 addition (thorough <=2) followed by one removal / replacement / forward addition / shortcut / serialisation; long = a valid word of ~300 children followed by replacements / removals at positions >= 257 with serialisations; moved = the <=2-addition and <=1-addition + one operation cores with children that were attached to and removed from another element before; leaf classes = a child offered to every class without content model is refused or fully tracked; halo = seeded hostile histories (mixed, failure-biased, removal-heavy, long runs, shortcut-heavy, guided by valid words). A case is one history; the invariants (both views are permutations of each other and of the shadow model, parents, exactly-once in output) are evaluated after every operation. non-trivial = at least one operation; distinct = distinct operation string')
 ASSUMPTIONS = ['reference DFAs built from /verif/ref/musicxml_4_0.xsd are the schema (self-tested, cross-checked by C03)', 'children are minimal unchecked instances so only the parent level is judged; parents carry their schema-required attributes', 'witnesses are shrunk by delta debugging before classification; beyond a fixed number per pre-signature they are only counted']
 TIMEOUT = {'quick': 900, 'thorough': 5400}
 PROPS = ('C06',)
@@ -13,6 +13,7 @@ PROPS = ('C06',)
 def plan(tier, seed):
     return [{'mode': 'repotests', 'cost': 3000}, {'mode': 'leafclasses', 'cost': 500}] + \
         [{'mode': 'long', 'type': t, 'cost': 2500} for t in sorted(ref.DFAS) if any(True for _ in genhist.core_long(t))] + \
+        [{'mode': 'moved', 'type': t, 'cost': genhist.n_core_additions(t, 2) + genhist.n_core_mixed(t, 1)} for t in sorted(ref.DFAS)] + \
         _histcheck.plan(lambda t: (genhist.n_core_forward_first(t, 2) * 1 + genhist.n_core_additions(t, genhist.nadd_for(t, tier)) + genhist.n_core_mixed(t, 1 if tier == 'quick' else 2) + 400))
 
 
@@ -25,6 +26,11 @@ def run_shard(shard, tier, seed):
     if shard.get('mode') == 'long':
         return _histcheck.run(shard, tier, seed, PROPERTY, [genhist.core_long(t, 300, 2 if tier == 'quick' else 6)], [], PROPS,
                               shrink_per_presig=1)
+    if shard.get('mode') == 'moved':
+        # children that were attached to, and removed from, another element of the same class before they are offered
+        return _histcheck.run(shard, tier, seed, PROPERTY, [genhist.core_additions(t, 2), genhist.core_mixed(t, 1)],
+                              [('mixed', 10, 8)] if tier == 'quick' else [('mixed', 200, 12), ('removal', 100, 10)], PROPS,
+                              shrink_per_presig=2, child_moved=True)
     n = genhist.nadd_for(t, tier)
     m = 1 if tier == 'quick' else 2
     cores = [genhist.core_forward_first(t, 2), genhist.core_additions(t, n), genhist.core_mixed(t, m)]
